@@ -38,6 +38,13 @@ func (s *SyslogIngester) Process(ctx context.Context, line string) error {
 // ParseSyslogMessage expects a message in the form of "<PID> <Message>".
 func (s *SyslogIngester) ParseSyslogMessage(entry string) sshd.SshdLogEntry {
 	minimumEntrySplitLength := 2
+
+	// The named pipe ingester hands over each record together with the
+	// delimiter that terminated it. The delimiter frames the record and is
+	// not part of the sshd message: left in place it ends up in extracted
+	// fields and keeps every end-anchored ("$") sshd pattern from matching.
+	entry = strings.TrimSuffix(entry, "\n")
+
 	entrySplit := strings.Split(entry, " ")
 
 	if len(entrySplit) < minimumEntrySplitLength {
